@@ -19,6 +19,8 @@ var graphs = []string{
 	"{1[ts1]1{cnct}cs2}",
 	"[<[tn]>{c<{cs1}>}n]",
 	"{1t2<[s1<i>]>}",
+	"{c{c{c[tn]}}cn}",
+	"[[[[[[ts1]]]]]]",
 }
 
 var allRec = &selgen.Sel{Op: 'R', LimitNone: true, Subs: []*selgen.Sel{{Op: '|', Subs: []*selgen.Sel{{Op: '.'}, {Op: 'a', Subs: []*selgen.Sel{{Op: '@'}}}}}}}
@@ -54,6 +56,57 @@ func HRoundTrip() {
 		}
 	}
 	nd.Assert(q.String() == p.String(), "formatting is stable")
+	nd.Reach("end")
+}
+
+// HPathValues: paths are values: deriving paths from a path (append, join, pop, truncate, shift)
+// never changes the path they were derived from nor one derived earlier.
+func HPathValues() {
+	n := nd.Choose("nseg", nd.Param("SEGS", 6)+1)
+	var strs []string
+	base := datamodel.Path{}
+	for i := 0; i < n; i++ {
+		s := nd.String("seg", 1)
+		nd.Assume(s[0] != '/')
+		strs = append(strs, s)
+		// built the way walks build them: one AppendSegment at a time
+		base = base.AppendSegmentString(s)
+	}
+	x, y, z := nd.String("x", 1), nd.String("y", 1), nd.String("z", 1)
+	nd.Assume(x[0] != '/' && y[0] != '/' && z[0] != '/')
+	same := func(p datamodel.Path, want []string) bool {
+		if p.Len() != len(want) {
+			return false
+		}
+		r := true
+		for i, s := range p.Segments() {
+			r = nd.And(r, s.String() == want[i])
+		}
+		return r
+	}
+	with := func(pre []string, more ...string) []string { return append(append([]string{}, pre...), more...) }
+	c1 := base.AppendSegmentString(x)
+	c2 := base.AppendSegment(datamodel.PathSegmentOfString(y))
+	c3 := base.Join(datamodel.NewPath([]datamodel.PathSegment{datamodel.PathSegmentOfString(z), datamodel.PathSegmentOfString(x)}))
+	nd.Assert(same(c1, with(strs, x)), "a derived path keeps its value when a sibling is derived from the same parent")
+	nd.Assert(same(c2, with(strs, y)), "the second sibling has its own value")
+	nd.Assert(same(c3, with(strs, z, x)), "Join gives parent + other")
+	nd.Assert(same(base, strs), "the parent path is unchanged")
+	if n > 0 {
+		p := base.Pop()
+		k := nd.Choose("trunc", n+1)
+		t := base.Truncate(k)
+		p1 := p.AppendSegmentString(z)
+		t1 := t.AppendSegmentString(y)
+		nd.Assert(same(p1, with(strs[:n-1], z)), "Pop then append gives the expected path")
+		nd.Assert(same(t1, with(strs[:k], y)), "Truncate then append gives the expected path")
+		nd.Assert(same(base, strs), "deriving from a popped or truncated path leaves the original intact")
+		nd.Assert(same(c1, with(strs, x)), "and leaves earlier derived paths intact")
+		first, rest := base.Shift()
+		nd.Assert(first.String() == strs[0] && same(rest, strs[1:]), "Shift splits off the first segment")
+		r1 := rest.AppendSegmentString(x)
+		nd.Assert(same(r1, with(strs[1:], x)) && same(base, strs), "appending to the shifted rest leaves the original intact")
+	}
 	nd.Reach("end")
 }
 
